@@ -15,6 +15,8 @@ impl LocalKey {
             .as_ref()
             .split_last_chunk::<16>()
             .ok_or(PasetoError::CryptoError)?;
+        #[cfg(paseto_verif)]
+        let n2 = &paseto_core::verif::counter_override(*n2);
         let ak = kdf(&self.0, 0x81, nonce);
 
         let key = UnboundCipherKey::new(&AES_256, ek).map_err(|_| PasetoError::CryptoError)?;
